@@ -176,7 +176,7 @@ var limitGrid = []uint64{0, 16, 64, 256, 1 << 10, 4 << 10, 16 << 10, 64 << 10, 2
 // limit never hurts.
 func TestC14(t *testing.T) {
 	rec := kit.Get("C14")
-	rapid.Check(t, func(t *rapid.T) {
+	runRapid(t, func(t *rapid.T) {
 		o := genOptions(t, rec)
 		c, _ := genOptionHistory(t, historyPlan{MinBatches: 1, MaxBatches: 6, Knobs: gen.InDomain()})
 		c.Options = o
